@@ -7,12 +7,16 @@ import (
 	"runtime/debug"
 
 	"github.com/cedar-policy/cedar-go/verif/c01"
+	"github.com/cedar-policy/cedar-go/verif/c02"
+	"github.com/cedar-policy/cedar-go/verif/c03"
 	"github.com/cedar-policy/cedar-go/verif/c20"
 	"github.com/cedar-policy/cedar-go/verif/core"
 )
 
 var registry = map[string]func() *core.Check{
 	"C01": c01.Check,
+	"C02": c02.Check,
+	"C03": c03.Check,
 	"C20": c20.Check,
 }
 
